@@ -30,6 +30,7 @@ struct fn_fd {
 	uint8_t * sent;			/* optional capture of outbound bytes */
 	size_t sentlen, sentcap;
 	int capture;
+	int txstream;			/* outbound bytes are checked against the stream pattern by offset */
 	int connecting;			/* 1: connect in progress */
 	long long conn_at;		/* when it completes (-1 never) */
 	int conn_err;			/* SO_ERROR at completion */
@@ -71,6 +72,7 @@ static inline uint8_t fn_rxbyte(int lfd, long long o)
 		return ((size_t)o < F->contentlen ? F->content[o] : 0);
 	return ((uint8_t)((o * 7 + lfd * 13 + 1) % 251));
 }
+static inline uint8_t fn_txstream(long long o) { return ((uint8_t)((o * 11 + 3) % 251)); }
 static inline uint8_t fn_txbyte(int req, long long o) { return ((uint8_t)((o * 11 + req * 5 + 3) % 251)); }
 
 static inline void
@@ -216,6 +218,9 @@ __wrap_send(int fd, const void * buf, size_t len, int flags)
 				}
 				memcpy(F->sent + F->sentlen, buf, (size_t)n);
 				F->sentlen += (size_t)n;
+			} else if (F->txstream) {
+				for (i = 0; i < n; i++)
+					if (((const uint8_t *)buf)[i] != fn_txstream(F->wpos + i)) dataok = 0;
 			} else if (req > 0) {
 				for (i = 0; i < n; i++)
 					if (((const uint8_t *)buf)[i] != fn_txbyte(req, off + i)) dataok = 0;
